@@ -18,6 +18,7 @@ import (
 	"net/http"
 	"net/netip"
 	"os"
+	"strings"
 	"syscall"
 	"testing"
 	"testing/synctest"
@@ -34,7 +35,7 @@ import (
 // c20FailPlugin is a plugin whose Prepare fails (e.g. the interface vanished between dial and Prepare).
 type c20FailPlugin struct{ plugin.MTU }
 
-func (*c20FailPlugin) Prepare(*net.Interface) error { return errors.New("verif: prepare failed") }
+func (*c20FailPlugin) Prepare(*net.Interface) error         { return errors.New("verif: prepare failed") }
 func (*c20FailPlugin) Apply(*ndp.RouterAdvertisement) error { return nil }
 
 func c20IsReady(a *Advertiser) bool {
@@ -267,6 +268,59 @@ func TestVerifC20Ready(t *testing.T) {
 		}
 		out.Emit(verifh.Case{ID: "c20ready-http", Input: map[string]any{"scenario": "http"}, Observed: obs, Tags: []string{"ready:http"}, ImplViolation: viol})
 	}
+	// ---- a request that takes its time (sysctl reads and netlink dumps of many interfaces, a stalled /proc): the answer is
+	// delivered when it is ready, the connection is not cut under it
+	if out.Wants("c20ready-http-slow-handler") {
+		var viol string
+		obs := map[string]any{}
+		srv := NewServer(NewContext(log.New(io.Discard, "", 0), nil, nil))
+		cfg := config.Config{}
+		cfg.Debug.Address = c20FreeAddr()
+		var ht *httpTask
+		slow := http.HandlerFunc(func(w http.ResponseWriter, r *http.Request) {
+			time.Sleep(6200 * time.Millisecond)
+			_, _ = io.WriteString(w, "the answer, computed slowly\n")
+		})
+		for _, task := range srv.BuildTasks(cfg, slow) {
+			if x, ok := task.(*httpTask); ok {
+				ht = x
+			}
+		}
+		if ht != nil && c20ListenAddr() != "" {
+			ctx, cancel := context.WithCancel(context.Background())
+			done := make(chan error, 1)
+			go func() { done <- ht.Run(ctx) }()
+			select {
+			case <-ht.Ready():
+				resC := make(chan string, 1)
+				go func() {
+					cl := &http.Client{Timeout: 12 * time.Second}
+					resp, err := cl.Get("http://" + c20ListenAddr() + "/metrics")
+					if err != nil {
+						resC <- "error: " + err.Error()
+						return
+					}
+					b, _ := io.ReadAll(resp.Body)
+					resp.Body.Close()
+					resC <- fmt.Sprintf("%d %s", resp.StatusCode, strings.TrimSpace(string(b)))
+				}()
+				got := <-resC
+				obs["slow_request"] = got
+				if got != "200 the answer, computed slowly" {
+					viol = "a debug request whose handler took 6.2 s was answered with [" + got + "], want the complete answer"
+				}
+			case <-time.After(5 * time.Second):
+				obs["unavailable"] = "the debug task did not become ready"
+			}
+			cancel()
+			select {
+			case <-done:
+			case <-time.After(5 * time.Second):
+			}
+		}
+		out.Emit(verifh.Case{ID: "c20ready-http-slow-handler", Input: map[string]any{"scenario": "http-slow-handler"}, Observed: obs, Tags: []string{"ready:http-slow"}, ImplViolation: viol})
+	}
+
 	// ---- the debug address is still held by someone else when the task starts (the previous instance during a restart
 	// overlap -- what the retry loop exists for): not ready while it cannot listen, ready once it does
 	if out.Wants("c20ready-http-busy") {
